@@ -62,15 +62,43 @@ Proof.
   pose proof (Z.div_mod (fst r * S) (snd r) ltac:(lia)) as Hdm. rewrite E in Hdm. lia.
 Qed.
 
+(* rounding *)
+Lemma fl_den_pos x : 0 < snd (fl x).
+Proof.
+  unfold fl. destruct (Z.abs (fst x) =? 0); [cbn; lia|]. cbv zeta.
+  match goal with |- 0 < snd (if ?c then _ else _) => destruct c eqn:Ee end; cbn [snd]; [lia|].
+  apply Z.leb_gt in Ee. apply Z.pow_pos_nonneg; lia.
+Qed.
+Lemma fl_zero x : fst x = 0 -> fl x = (0, 1).
+Proof. intros E. unfold fl. rewrite E. reflexivity. Qed.
+Lemma radd_comm x y : radd x y = radd y x.
+Proof. unfold radd. f_equal; lia. Qed.
+
+Lemma rsub_swap x y : rsub y x = (- fst (rsub x y), snd (rsub x y)).
+Proof. unfold rsub. cbn [fst snd]. f_equal; lia. Qed.
+(* rounding is odd *)
+Lemma fl_opp a b : fl (- a, b) = (- fst (fl (a, b)), snd (fl (a, b))).
+Proof.
+  unfold fl. cbn [fst snd]. rewrite Z.abs_opp, Z.sgn_opp.
+  destruct (Z.abs a =? 0); [reflexivity|]. cbv zeta.
+  match goal with |- (if ?c then _ else _) = _ => destruct c end; cbn [fst snd]; f_equal; ring.
+Qed.
+Lemma mdiff_f_swap D c1 c2 :
+  fst (mdiff_f D c2 c1) = - fst (mdiff_f D c1 c2) /\ snd (mdiff_f D c2 c1) = snd (mdiff_f D c1 c2).
+Proof.
+  unfold mdiff_f. rewrite (rsub_swap (mean_f D c1) (mean_f D c2)), fl_opp.
+  destruct (rsub (mean_f D c1) (mean_f D c2)) as [a b]. cbn [fst snd]. split; reflexivity.
+Qed.
+
 (* ------------------------------------------------------------------ *)
 (* inversion of stats_pair *)
 Lemma stats_pair_inv D S H lo hi T b cdfs s1 s2 x :
   stats_pair D S H lo hi T b cdfs s1 s2 = POk x ->
   exists l1 l2 gi,
-    cstats_of s1 = POk l1 /\ cstats_of s2 = POk l2 /\ length l1 = length l2 /\ length l1 = length cdfs /\
+    cstats_of s1 = POk l1 /\ cstats_of s2 = POk l2 /\ length l1 = length l2 /\
     opt_list (map (fun cc => gene_in D S (fst cc) (snd cc)) (combine l1 l2)) = Some gi /\
     x = mk_pair_in (s_n s1) (s_n s2) (2 * H) T
-                   (welch_pvalues H lo hi b (welch_genes D l1 l2) cdfs)
+                   (welch_pvalues H lo hi b cdfs (welch_genes D l1 l2))
                    (map (fun y : score * Z * Z => fst (fst y)) gi)
                    (map (fun y : score * Z * Z => snd (fst y)) gi)
                    (map (fun y : score * Z * Z => snd y) gi).
@@ -78,9 +106,8 @@ Proof.
   unfold stats_pair. intros Hx.
   destruct (cstats_of s1) as [l1|c]; [|discriminate Hx].
   destruct (cstats_of s2) as [l2|c]; [|discriminate Hx]. cbn [pbind] in Hx.
-  destruct ((length l1 =? length l2)%nat && (length l1 =? length cdfs)%nat) eqn:El; [|discriminate Hx].
-  cbn [negb] in Hx. apply andb_true_iff in El. destruct El as [E1 E2].
-  apply Nat.eqb_eq in E1, E2.
+  destruct ((length l1 =? length l2)%nat) eqn:El; [|discriminate Hx].
+  cbn [negb] in Hx. apply Nat.eqb_eq in El.
   destruct (opt_list _) as [gi|] eqn:Eg; [|discriminate Hx].
   inversion Hx. exists l1, l2, gi. repeat split; assumption.
 Qed.
@@ -88,14 +115,14 @@ Qed.
 Lemma gene_in_inv D S c1 c2 sc m1 m2 :
   gene_in D S c1 c2 = Some (sc, m1, m2) ->
   exists q1 qd f, sc = (q1, qd, f) /\ to_S S (q1_r c1 c2) = Some q1 /\ to_S S (qdiff_r c1 c2) = Some qd /\
-    to_S S (fold_r D c1 c2) = Some f /\ to_S S (mean_r D c1) = Some m1 /\ to_S S (mean_r D c2) = Some m2.
+    to_S S (fold_f D c1 c2) = Some f /\ to_S S (mean_f D c1) = Some m1 /\ to_S S (mean_f D c2) = Some m2.
 Proof.
   unfold gene_in. intros Hg.
   destruct (to_S S (q1_r c1 c2)) as [a|]; [|discriminate Hg].
   destruct (to_S S (qdiff_r c1 c2)) as [b|]; [|discriminate Hg].
-  destruct (to_S S (fold_r D c1 c2)) as [c|]; [|discriminate Hg].
-  destruct (to_S S (mean_r D c1)) as [x1|]; [|discriminate Hg].
-  destruct (to_S S (mean_r D c2)) as [x2|]; [|discriminate Hg].
+  destruct (to_S S (fold_f D c1 c2)) as [c|]; [|discriminate Hg].
+  destruct (to_S S (mean_f D c1)) as [x1|]; [|discriminate Hg].
+  destruct (to_S S (mean_f D c2)) as [x2|]; [|discriminate Hg].
   inversion Hg; subst. exists a, b, c. repeat split; reflexivity.
 Qed.
 
@@ -121,8 +148,8 @@ Proof.
   destruct g; try destruct b as [[bn bd]|]; try destruct (tnu_boring _ _ _); apply p_of_cdf_range; assumption.
 Qed.
 
-Lemma welch_pvalues_range H lo hi b tn cdfs : 0 < H -> 0 <= lo -> hi <= 2 * H -> lo <= hi ->
-  Forall (fun q => 0 <= q <= 2 * H) (welch_pvalues H lo hi b tn cdfs).
+Lemma welch_pvalues_range H lo hi b cdfs tn : 0 < H -> 0 <= lo -> hi <= 2 * H -> lo <= hi ->
+  Forall (fun q => 0 <= q <= 2 * H) (welch_pvalues H lo hi b cdfs tn).
 Proof.
   intros HH Hlo Hhi Hlh. unfold welch_pvalues. apply Forall_forall. intros q Hq.
   apply in_map_iff in Hq. destruct Hq as (gc & <- & _). apply welch_p_range; assumption.
@@ -131,20 +158,67 @@ Qed.
 (* ------------------------------------------------------------------ *)
 (* c11_sound instantiated with the statistics: what a recorded gene satisfies, in terms of the two
    rows of the statistics file *)
+(* off_threshold (audit 3, defect A1): NO RATIONAL SCORE EQUALS A THRESHOLD OR A FLOOR (each x/S).
+   The scores of the model are exact rationals, those of the code binary64 results of 2-4 rounded
+   operations (relative error < 2^-50): a comparison `score > threshold` / `score < floor` of the code
+   agrees with the model's unless the rational score is within that distance of the threshold, and for
+   cell counts below 2^24 that happens only when it EQUALS the threshold as written (7/10, 1/10, 4/5: then
+   binary64 lands on either side: n1=4, ge1=1, n2=6, ge1=5 gives qdiff = 7/10, float 0.7000000000000001 >
+   0.7; pij 9/10 against 1 gives qdiff = 1/10, float 0.09999999999999998 < 0.1).  The statements from
+   the statistics speak for the code only under this hypothesis (thresholds read as the rationals
+   the user wrote); the harness (threshold_hit_cases) places count ratios exactly on 0.7 / 0.1 / 0.8 and
+   counts what the real code does there (evidence key c11_threshold_hit_exactly). *)
+Definition rne (r : rat) (S x : Z) : Prop := fst r * S <> x * snd r.          (* r <> x/S *)
+Definition off_threshold (th : thresholds) (D S : Z) (c1 c2 : cstat) : Prop :=
+  rne (q1_r c1 c2) S (q1_th th) /\ rne (q1_r c1 c2) S (q1_min th) /\
+  rne (qdiff_r c1 c2) S (qdiff_th th) /\ rne (qdiff_r c1 c2) S (qdiff_min th) /\
+  rne (fold_f D c1 c2) S (fold_th th) /\ rne (fold_f D c1 c2) S (fold_min th).
+
+Definition strictly_above_floors (th : thresholds) (g : score) : Prop :=
+  let '(q1, qd, f) := g in q1_min th < q1 /\ qdiff_min th < qd /\ fold_min th < f.
+Definition on_or_above_thresholds (th : thresholds) (g : score) : Prop :=
+  let '(q1, qd, f) := g in q1_th th <= q1 /\ qdiff_th th <= qd /\ fold_th th <= f.
+(* what a recorded off-threshold gene satisfies: STRICT inequalities only (so that rounding errors
+   smaller than the distance to the threshold cannot flip them) *)
+Definition crit_strict (th : thresholds) (exact : bool) (sc : score) : Prop :=
+  if exact then strictly_passes th sc else strictly_above_floors th sc.
+
 Definition stat_crit (th : thresholds) (exact : bool) (D S : Z) (c1 c2 : cstat) : Prop :=
   exists q1 qd f,
     (* q1/S = max(pij_1, pij_2), qd/S = |pij_1 - pij_2| / max(..), f/S = |mean_1 - mean_2|, exactly *)
     q1 * snd (q1_r c1 c2) = fst (q1_r c1 c2) * S /\
     qd * snd (qdiff_r c1 c2) = fst (qdiff_r c1 c2) * S /\
-    f * snd (fold_r D c1 c2) = fst (fold_r D c1 c2) * S /\
-    crit th exact (q1, qd, f).
+    f * snd (fold_f D c1 c2) = fst (fold_f D c1 c2) * S /\
+    crit th exact (q1, qd, f) /\ crit_strict th exact (q1, qd, f).
+
+(* off the thresholds `on or above` and `strictly above` coincide *)
+Lemma off_threshold_strict th exact D S c1 c2 q1 qd f :
+  0 < snd (q1_r c1 c2) -> 0 < snd (qdiff_r c1 c2) -> 0 < snd (fold_f D c1 c2) ->
+  off_threshold th D S c1 c2 ->
+  q1 * snd (q1_r c1 c2) = fst (q1_r c1 c2) * S ->
+  qd * snd (qdiff_r c1 c2) = fst (qdiff_r c1 c2) * S ->
+  f * snd (fold_f D c1 c2) = fst (fold_f D c1 c2) * S ->
+  (crit th exact (q1, qd, f) -> crit_strict th exact (q1, qd, f)) /\
+  (on_or_above_thresholds th (q1, qd, f) -> strictly_passes th (q1, qd, f)).
+Proof.
+  intros P1 P2 P3 (O1 & O2 & O3 & O4 & O5 & O6) E1 E2 E3. unfold rne in *.
+  assert (N1 : q1 <> q1_th th) by (intro; subst q1; apply O1; lia).
+  assert (N2 : q1 <> q1_min th) by (intro; subst q1; apply O2; lia).
+  assert (N3 : qd <> qdiff_th th) by (intro; subst qd; apply O3; lia).
+  assert (N4 : qd <> qdiff_min th) by (intro; subst qd; apply O4; lia).
+  assert (N5 : f <> fold_th th) by (intro; subst f; apply O5; lia).
+  assert (N6 : f <> fold_min th) by (intro; subst f; apply O6; lia).
+  split.
+  - unfold crit, crit_strict. destruct exact; [tauto|]. unfold above_floors, strictly_above_floors. lia.
+  - unfold on_or_above_thresholds, strictly_passes. lia.
+Qed.
 
 Definition rat_wf (D : Z) (c : cstat) : Prop := 0 < D /\ 0 <= c_ge1 c.
 
 Lemma q1_r_den c1 c2 : 0 < snd (q1_r c1 c2).
 Proof. unfold q1_r, pij, nmax1. destruct (rgt _ _); cbn [snd]; lia. Qed.
-Lemma fold_r_den D c1 c2 : 0 < D -> 0 < snd (fold_r D c1 c2).
-Proof. intros HD. unfold fold_r, mdiff_r, nmax1. cbn [snd]. nia. Qed.
+Lemma fold_f_den D c1 c2 : 0 < D -> 0 < snd (fold_f D c1 c2).
+Proof. intros _. unfold fold_f, mdiff_f. cbn [snd]. apply fl_den_pos. Qed.
 Lemma qdiff_r_den c1 c2 : 0 <= c_ge1 c1 -> 0 <= c_ge1 c2 -> 0 < snd (qdiff_r c1 c2).
 Proof.
   intros _ _. unfold qdiff_r.
@@ -159,15 +233,16 @@ Theorem sdg_stats_sound : forall st mask D H lo hi T b cdfs s1 s2 v up g,
   st_n_min st <= s_n s1 /\ st_n_min st <= s_n s2 /\
   exists l1 l2 c1 c2,
     cstats_of s1 = POk l1 /\ cstats_of s2 = POk l2 /\ nth_error l1 g = Some c1 /\ nth_error l2 g = Some c2 /\
-    (exists a, nth_error (approx_correct_ttest (2 * H) T (welch_pvalues H lo hi b (welch_genes D l1 l2) cdfs)) g = Some a /\ a < T) /\
+    (exists a, nth_error (approx_correct_ttest (2 * H) T (welch_pvalues H lo hi b cdfs (welch_genes D l1 l2))) g = Some a /\ a < T) /\
     in_list mask g /\
-    (0 <= c_ge1 c1 -> 0 <= c_ge1 c2 -> stat_crit (st_th st) (st_exact st) D (st_S st) c1 c2).
+    (0 <= c_ge1 c1 -> 0 <= c_ge1 c2 -> off_threshold (st_th st) D (st_S st) c1 c2 ->
+     stat_crit (st_th st) (st_exact st) D (st_S st) c1 c2).
 Proof.
   intros st mask D H lo hi T b cdfs s1 s2 v up g HD Hf Ho Hs Hg.
   unfold sdg_stats in Hs.
   destruct (stats_pair D (st_S st) H lo hi T b cdfs s1 s2) as [x|c] eqn:Ex; [|discriminate Hs].
   cbn [pbind] in Hs.
-  destruct (stats_pair_inv _ _ _ _ _ _ _ _ _ _ _ Ex) as (l1 & l2 & gi & E1 & E2 & _ & _ & Egi & Hx).
+  destruct (stats_pair_inv _ _ _ _ _ _ _ _ _ _ _ Ex) as (l1 & l2 & gi & E1 & E2 & _ & Egi & Hx).
   destruct (sdg_sound st mask x v up g Hf Ho Hs Hg) as (N1 & N2 & Hp & Hl & sc & Hsc & Hc).
   subst x. cbn [pi_n1 pi_n2 pi_SP pi_T pi_p pi_scores] in *.
   split; [exact N1|]. split; [exact N2|].
@@ -175,13 +250,15 @@ Proof.
   exists l1, l2, c1, c2.
   split; [exact E1|]. split; [exact E2|]. split; [exact Hc1|]. split; [exact Hc2|].
   split; [exact Hp|]. split; [exact Hl|].
-  intros G1 G2.
+  intros G1 G2 Hoff.
   destruct (gene_in_inv _ _ _ _ _ _ _ Hgi) as (q1 & qd & f & -> & T1 & T2 & T3 & _ & _).
   exists q1, qd, f.
-  split; [apply to_S_exact; [apply q1_r_den | exact T1]|].
-  split; [apply to_S_exact; [apply qdiff_r_den; assumption | exact T2]|].
-  split; [apply to_S_exact; [apply fold_r_den; exact HD | exact T3]|].
-  exact Hc.
+  pose proof (to_S_exact _ _ _ (q1_r_den c1 c2) T1) as X1.
+  pose proof (to_S_exact _ _ _ (qdiff_r_den c1 c2 G1 G2) T2) as X2.
+  pose proof (to_S_exact _ _ _ (fold_f_den D c1 c2 HD) T3) as X3.
+  split; [exact X1|]. split; [exact X2|]. split; [exact X3|]. split; [exact Hc|].
+  exact (proj1 (off_threshold_strict _ (st_exact st) _ _ _ _ _ _ _ (q1_r_den c1 c2) (qdiff_r_den c1 c2 G1 G2)
+                  (fold_f_den D c1 c2 HD) Hoff X1 X2 X3) Hc).
 Qed.
 
 (* ------------------------------------------------------------------ *)
@@ -190,49 +267,49 @@ Qed.
    correction of the exact two-sided Welch p-values is below p_th - given the premise, checked
    numerically by the harness on every gene that occurs, that the oracle's CDF value of every
    SKIPPED gene has 2c >= p_th and 2(1-c) >= p_th *)
-Definition gcdf (gc : tnu * option Z) : option Z := match fst gc with TN_nan => None | _ => snd gc end.
-Definition gbrg (b : option (Z * Z)) (gc : tnu * option Z) : bool :=
-  match b with Some (bn, bd) => tnu_boring bn bd (fst gc) | None => false end.
+Definition gcdf (t_cdf : tnu -> option Z) (g : tnu) : option Z := match g with TN_nan => None | _ => t_cdf g end.
+Definition gbrg (b : option (Z * Z)) (g : tnu) : bool :=
+  match b with Some (bn, bd) => tnu_boring bn bd g | None => false end.
 
-Lemma welch_p_exactG H lo hi gc : welch_p H lo hi None (fst gc) (snd gc) = exactG _ H lo hi gcdf gc.
-Proof. unfold exactG, gcdf, welch_p. destruct (fst gc); reflexivity. Qed.
+Lemma welch_p_exactG H lo hi t_cdf g : welch_p H lo hi None g (t_cdf g) = exactG _ H lo hi (gcdf t_cdf) g.
+Proof. unfold exactG, gcdf, welch_p. destruct g; reflexivity. Qed.
 
-Lemma welch_p_skipG H lo hi b gc :
-  welch_p H lo hi b (fst gc) (snd gc) = skipG _ H lo hi gcdf (gbrg b) gc.
+Lemma welch_p_skipG H lo hi b t_cdf g :
+  welch_p H lo hi b g (t_cdf g) = skipG _ H lo hi (gcdf t_cdf) (gbrg b) g.
 Proof.
   unfold skipG, exactG, gcdf, gbrg, welch_p. destruct b as [[bn bd]|].
-  - destruct (fst gc) eqn:E; reflexivity.
-  - destruct (fst gc); reflexivity.
+  - destruct g; reflexivity.
+  - destruct g; reflexivity.
 Qed.
 
-Theorem welch_route_decisions : forall H lo hi T b tn cdfs,
+Theorem welch_route_decisions : forall H lo hi T b t_cdf tn,
   0 < H -> 0 <= lo <= H -> H <= hi <= 2 * H -> T <= 2 * H ->
-  (forall gc c, In gc (combine tn cdfs) -> gbrg b gc = true -> gcdf gc = Some c ->
-                T <= 2 * c /\ T <= 2 * (2 * H - c)) ->
-  map (fun v => v <? T) (approx_correct_ttest (2 * H) T (welch_pvalues H lo hi b tn cdfs))
-  = map (fun v => v <? T) (correct_ttest (2 * H) 0 (welch_pvalues H lo hi None tn cdfs)).
+  (forall g c, In g tn -> gbrg b g = true -> gcdf t_cdf g = Some c ->
+               T <= 2 * c /\ T <= 2 * (2 * H - c)) ->
+  map (fun v => v <? T) (approx_correct_ttest (2 * H) T (welch_pvalues H lo hi b t_cdf tn))
+  = map (fun v => v <? T) (correct_ttest (2 * H) 0 (welch_pvalues H lo hi None t_cdf tn)).
 Proof.
-  intros H lo hi T b tn cdfs HH Hlo Hhi HT Hprem.
+  intros H lo hi T b t_cdf tn HH Hlo Hhi HT Hprem.
   unfold welch_pvalues.
-  rewrite (map_ext _ _ (welch_p_skipG H lo hi b)), (map_ext _ _ (welch_p_exactG H lo hi)).
+  rewrite (map_ext _ _ (welch_p_skipG H lo hi b t_cdf)), (map_ext _ _ (welch_p_exactG H lo hi t_cdf)).
   (* the premise is needed only on the genes of the list: restrict the skipping rule to them *)
-  set (l := combine tn cdfs) in *.
+  set (l := tn) in *.
   assert (Gen : forall l0, (forall gc, In gc l0 -> In gc l) ->
-    map (fun v => v <? T) (approx_correct_ttest (2 * H) T (map (skipG _ H lo hi gcdf (gbrg b)) l0))
-    = map (fun v => v <? T) (correct_ttest (2 * H) 0 (map (exactG _ H lo hi gcdf) l0))).
+    map (fun v => v <? T) (approx_correct_ttest (2 * H) T (map (skipG _ H lo hi (gcdf t_cdf) (gbrg b)) l0))
+    = map (fun v => v <? T) (correct_ttest (2 * H) 0 (map (exactG _ H lo hi (gcdf t_cdf)) l0))).
   { intros l0 Hin.
-    assert (P' : Forall (fun x => 0 <= x <= 2 * H) (map (skipG _ H lo hi gcdf (gbrg b)) l0)).
+    assert (P' : Forall (fun x => 0 <= x <= 2 * H) (map (skipG _ H lo hi (gcdf t_cdf) (gbrg b)) l0)).
     { apply Forall_forall. intros x Hx. apply in_map_iff in Hx. destruct Hx as (gc & <- & _).
       unfold skipG, exactG. destruct (gbrg b gc); apply p_of_cdf_range; lia. }
-    assert (P : Forall (fun x => 0 <= x <= 2 * H) (map (exactG _ H lo hi gcdf) l0)).
+    assert (P : Forall (fun x => 0 <= x <= 2 * H) (map (exactG _ H lo hi (gcdf t_cdf)) l0)).
     { apply Forall_forall. intros x Hx. apply in_map_iff in Hx. destruct Hx as (gc & <- & _).
       unfold exactG. apply p_of_cdf_range; lia. }
-    destruct (boring_sound_full (2 * H) T (map (exactG _ H lo hi gcdf) l0) (map (skipG _ H lo hi gcdf (gbrg b)) l0)
+    destruct (boring_sound_full (2 * H) T (map (exactG _ H lo hi (gcdf t_cdf)) l0) (map (skipG _ H lo hi (gcdf t_cdf) (gbrg b)) l0)
                 P P' HT) as [_ R]; [|exact R].
     clear P P'. induction l0 as [|gc t IH]; cbn [map]; constructor.
     - unfold same_or_above, skipG. destruct (gbrg b gc) eqn:Eb; [|left; reflexivity].
       right. rewrite p_of_half by lia. split; [|exact HT].
-      unfold exactG. destruct (gcdf gc) as [c|] eqn:Ec.
+      unfold exactG. destruct (gcdf t_cdf gc) as [c|] eqn:Ec.
       + destruct (Hprem gc c (Hin gc (or_introl eq_refl)) Eb Ec) as [L U].
         unfold p_of_cdf, pval_of, clipc.
         destruct (2 * Z.min hi (Z.max lo c) <? 2 * H) eqn:E2; [apply Z.ltb_lt in E2 | apply Z.ltb_ge in E2]; lia.
@@ -241,21 +318,21 @@ Proof.
   apply Gen. intros gc Hgc. exact Hgc.
 Qed.
 
-Theorem sdg_stats_sound_exact_welch : forall st mask D H lo hi T b cdfs s1 s2 v up g,
+Theorem sdg_stats_sound_exact_welch : forall st mask D H lo hi T b t_cdf s1 s2 v up g,
   0 < D -> 0 < H -> 0 <= lo <= H -> H <= hi <= 2 * H -> T <= 2 * H ->
   - st_S st < q1_min (st_th st) -> q1_min (st_th st) < q1_th (st_th st) ->
   (forall l1 l2 gc c, cstats_of s1 = POk l1 -> cstats_of s2 = POk l2 ->
-       In gc (combine (welch_genes D l1 l2) cdfs) -> gbrg b gc = true -> gcdf gc = Some c ->
+       In gc (welch_genes D l1 l2) -> gbrg b gc = true -> gcdf t_cdf gc = Some c ->
        T <= 2 * c /\ T <= 2 * (2 * H - c)) ->
-  sdg_stats st mask D H lo hi T b cdfs s1 s2 = POk (v, up) -> nth_error v g = Some true ->
+  sdg_stats st mask D H lo hi T b t_cdf s1 s2 = POk (v, up) -> nth_error v g = Some true ->
   exists l1 l2, cstats_of s1 = POk l1 /\ cstats_of s2 = POk l2 /\
-    exists h, nth_error (correct_ttest (2 * H) 0 (welch_pvalues H lo hi None (welch_genes D l1 l2) cdfs)) g = Some h /\ h < T.
+    exists h, nth_error (correct_ttest (2 * H) 0 (welch_pvalues H lo hi None t_cdf (welch_genes D l1 l2))) g = Some h /\ h < T.
 Proof.
-  intros st mask D H lo hi T b cdfs s1 s2 v up g HD HH Hlo Hhi HT Hf Ho Hprem Hs Hg.
-  destruct (sdg_stats_sound st mask D H lo hi T b cdfs s1 s2 v up g HD Hf Ho Hs Hg)
+  intros st mask D H lo hi T b t_cdf s1 s2 v up g HD HH Hlo Hhi HT Hf Ho Hprem Hs Hg.
+  destruct (sdg_stats_sound st mask D H lo hi T b t_cdf s1 s2 v up g HD Hf Ho Hs Hg)
     as (_ & _ & l1 & l2 & c1 & c2 & E1 & E2 & _ & _ & (a & Ha & HaT) & _ & _).
   exists l1, l2. split; [exact E1|]. split; [exact E2|].
-  pose proof (welch_route_decisions H lo hi T b (welch_genes D l1 l2) cdfs HH Hlo Hhi HT
+  pose proof (welch_route_decisions H lo hi T b t_cdf (welch_genes D l1 l2) HH Hlo Hhi HT
                 (fun gc c => Hprem l1 l2 gc c E1 E2)) as Hd.
   destruct (map_eq_nth (fun v => v <? T) _ _ g a Hd Ha) as (h & Hh & Hlt).
   exists h. split; [exact Hh|].
@@ -265,22 +342,29 @@ Qed.
 (* ------------------------------------------------------------------ *)
 (* completeness from the statistics *)
 Theorem sdg_stats_complete : forall st mask D H lo hi T b cdfs s1 s2 v up g l1 l2 c1 c2 q1 qd f,
-  0 < st_S st ->
+  0 < st_S st -> 0 < D ->
   sdg_stats st mask D H lo hi T b cdfs s1 s2 = POk (v, up) ->
   st_n_min st <= s_n s1 -> st_n_min st <= s_n s2 ->
   cstats_of s1 = POk l1 -> cstats_of s2 = POk l2 -> nth_error l1 g = Some c1 -> nth_error l2 g = Some c2 ->
-  (exists a, nth_error (approx_correct_ttest (2 * H) T (welch_pvalues H lo hi b (welch_genes D l1 l2) cdfs)) g = Some a /\ a < T) ->
+  (exists a, nth_error (approx_correct_ttest (2 * H) T (welch_pvalues H lo hi b cdfs (welch_genes D l1 l2))) g = Some a /\ a < T) ->
   in_list mask g ->
+  0 <= c_ge1 c1 -> 0 <= c_ge1 c2 -> off_threshold (st_th st) D (st_S st) c1 c2 ->
   to_S (st_S st) (q1_r c1 c2) = Some q1 -> to_S (st_S st) (qdiff_r c1 c2) = Some qd ->
-  to_S (st_S st) (fold_r D c1 c2) = Some f ->
-  strictly_passes (st_th st) (q1, qd, f) ->
+  to_S (st_S st) (fold_f D c1 c2) = Some f ->
+  on_or_above_thresholds (st_th st) (q1, qd, f) ->
   nth_error v g = Some true.
 Proof.
-  intros st mask D H lo hi T b cdfs s1 s2 v up g l1 l2 c1 c2 q1 qd f HS Hs N1 N2 E1 E2 Hc1 Hc2 Hp Hl T1 T2 T3 Hsp.
+  intros st mask D H lo hi T b cdfs s1 s2 v up g l1 l2 c1 c2 q1 qd f HS HD Hs N1 N2 E1 E2 Hc1 Hc2 Hp Hl G1 G2 Hoff T1 T2 T3 Hge.
+  assert (Hsp : strictly_passes (st_th st) (q1, qd, f)).
+  { pose proof (to_S_exact _ _ _ (q1_r_den c1 c2) T1) as X1.
+    pose proof (to_S_exact _ _ _ (qdiff_r_den c1 c2 G1 G2) T2) as X2.
+    pose proof (to_S_exact _ _ _ (fold_f_den D c1 c2 HD) T3) as X3.
+    exact (proj2 (off_threshold_strict _ (st_exact st) _ _ _ _ _ _ _ (q1_r_den c1 c2) (qdiff_r_den c1 c2 G1 G2)
+                    (fold_f_den D c1 c2 HD) Hoff X1 X2 X3) Hge). }
   unfold sdg_stats in Hs.
   destruct (stats_pair D (st_S st) H lo hi T b cdfs s1 s2) as [x|c] eqn:Ex; [|discriminate Hs].
   cbn [pbind] in Hs.
-  destruct (stats_pair_inv _ _ _ _ _ _ _ _ _ _ _ Ex) as (l1' & l2' & gi & E1' & E2' & Hl12 & _ & Egi & Hx).
+  destruct (stats_pair_inv _ _ _ _ _ _ _ _ _ _ _ Ex) as (l1' & l2' & gi & E1' & E2' & Hl12 & Egi & Hx).
   rewrite E1 in E1'. rewrite E2 in E2'. inversion E1'; inversion E2'; subst l1' l2'.
   apply (sdg_complete st mask x v up g (q1, qd, f) HS); subst x;
     cbn [pi_n1 pi_n2 pi_SP pi_T pi_p pi_scores pi_mean1]; try assumption.
@@ -300,20 +384,24 @@ Qed.
 (* ------------------------------------------------------------------ *)
 (* the cases the property text names *)
 
-(* zero variance in both clusters (n >= 1 each, sumsq*n = sum^2): var1/n1 + var2/n2 = 0 is not > 0, so
-   denom = 1.0e-10, and nu_denom = 0 or NaN falls back to 1.0: nu = 0.  scipy's t.cdf(., df=0) is NaN,
-   the p-value 1: such a gene is never recorded, however different the two means are *)
+(* the float variance is exactly 0.0 in both clusters (n >= 1 each): var1/n1 + var2/n2 = 0.0 is not > 0, so
+   denom = 1.0e-10, and nu_denom = 0 or NaN falls back to 1.0: nu = 0 (scipy's t.cdf(., df=0) is NaN, the
+   p-value 1).  The float variance of a CONSTANT gene is exactly 0.0 when the constant is dyadic with few
+   bits (0, 2.0, 0.25 ...) and a rounding residue of either sign otherwise (Props/C11.v:
+   c11_welch_constant_gene_noise) *)
 Lemma welch_zero_variance D c1 c2 :
   1 <= c_n c1 -> 1 <= c_n c2 ->
-  fst (var_r D c1) = 0 -> fst (var_r D c2) = 0 ->
-  exists nud, welch_gene D c1 c2 = TN_tiny (fst (mdiff_r D c1 c2)) (snd (mdiff_r D c1 c2)) 0 nud.
+  fst (var_f D c1) = 0 -> fst (var_f D c2) = 0 ->
+  exists nud, welch_gene D c1 c2 = TN_tiny (fst (mdiff_f D c1 c2)) (snd (mdiff_f D c1 c2)) 0 nud.
 Proof.
   intros N1 N2 V1 V2. unfold welch_gene.
   destruct ((c_n c1 <? 1) || (c_n c2 <? 1)) eqn:En.
   { apply orb_true_iff in En. destruct En as [En|En]; apply Z.ltb_lt in En; lia. }
-  rewrite V1, V2. cbn [Z.mul Z.add].
-  replace (0 * (snd (var_r D c2) * c_n c2) + 0 * (snd (var_r D c1) * c_n c1)) with 0 by lia.
-  cbn [Z.ltb Z.compare].
+  cbv zeta.
+  rewrite (fl_zero (rdivz (var_f D c1) (c_n c1))) by exact V1.
+  rewrite (fl_zero (rdivz (var_f D c2) (c_n c2))) by exact V2.
+  change (radd (0, 1) (0, 1)) with (0, 1). rewrite (fl_zero (0, 1)) by reflexivity.
+  cbn [fst snd Z.ltb Z.compare Z.mul].
   destruct (nu_denom _ _) as [[Kn Kd]|]; cbn [fst snd]; eexists; reflexivity.
 Qed.
 
@@ -357,15 +445,12 @@ Theorem welch_gene_swap D c1 c2 : welch_gene D c2 c1 = tnu_neg (welch_gene D c1 
 Proof.
   unfold welch_gene. rewrite (orb_comm (c_n c2 <? 1)).
   destruct ((c_n c1 <? 1) || (c_n c2 <? 1)); [reflexivity|].
-  rewrite (nu_denom_sym (kterm (var_r D c2) (c_n c2))).
-  set (v1 := var_r D c1). set (v2 := var_r D c2).
-  replace (fst v2 * (snd v1 * c_n c1) + fst v1 * (snd v2 * c_n c2))
-    with (fst v1 * (snd v2 * c_n c2) + fst v2 * (snd v1 * c_n c1)) by lia.
-  replace (snd v2 * c_n c2 * (snd v1 * c_n c1)) with (snd v1 * c_n c1 * (snd v2 * c_n c2)) by lia.
-  assert (Ed : fst (mdiff_r D c2 c1) = - fst (mdiff_r D c1 c2)) by (unfold mdiff_r; cbn [fst]; lia).
-  assert (Es : snd (mdiff_r D c2 c1) = snd (mdiff_r D c1 c2)) by (unfold mdiff_r; cbn [snd]; lia).
+  cbv zeta.
+  rewrite (nu_denom_sym (kterm (var_f D c2) (c_n c2))).
+  rewrite (radd_comm (fl (rdivz (var_f D c2) (c_n c2)))).
+  destruct (mdiff_f_swap D c1 c2) as [Ed Es].
   rewrite Ed, Es.
-  replace (- fst (mdiff_r D c1 c2) * - fst (mdiff_r D c1 c2)) with (fst (mdiff_r D c1 c2) * fst (mdiff_r D c1 c2)) by lia.
+  replace (- fst (mdiff_f D c1 c2) * - fst (mdiff_f D c1 c2)) with (fst (mdiff_f D c1 c2) * fst (mdiff_f D c1 c2)) by lia.
   rewrite Z.sgn_opp.
   destruct (0 <? _); reflexivity.
 Qed.
@@ -378,22 +463,20 @@ Proof. destruct g; cbn; try reflexivity. rewrite Z.abs_opp. reflexivity. Qed.
 Definition req (a b : rat) : Prop := fst a * snd b = fst b * snd a.
 
 Theorem welch_scores_swap D c1 c2 :
-  fold_r D c2 c1 = (fst (fold_r D c1 c2), snd (fold_r D c2 c1)) /\ snd (fold_r D c2 c1) = snd (fold_r D c1 c2) /\
+  fold_f D c2 c1 = (fst (fold_f D c1 c2), snd (fold_f D c2 c1)) /\ snd (fold_f D c2 c1) = snd (fold_f D c1 c2) /\
   req (q1_r c2 c1) (q1_r c1 c2) /\
   (0 <= c_ge1 c1 -> 0 <= c_ge1 c2 -> req (qdiff_r c2 c1) (qdiff_r c1 c2)).
 Proof.
-  assert (F1 : fst (fold_r D c2 c1) = fst (fold_r D c1 c2)).
-  { unfold fold_r, mdiff_r. cbn [fst].
-    replace (c_sum c2 * nmax1 (c_n c1) - c_sum c1 * nmax1 (c_n c2)) with (- (c_sum c1 * nmax1 (c_n c2) - c_sum c2 * nmax1 (c_n c1))) by lia.
-    apply Z.abs_opp. }
+  assert (F1 : fst (fold_f D c2 c1) = fst (fold_f D c1 c2)).
+  { unfold fold_f. cbn [fst]. rewrite (proj1 (mdiff_f_swap D c1 c2)). apply Z.abs_opp. }
   assert (Q : req (q1_r c2 c1) (q1_r c1 c2)).
   { unfold req, q1_r, rgt, pij. cbn [fst snd].
     destruct (c_ge1 c1 * nmax1 (c_n c2) <? c_ge1 c2 * nmax1 (c_n c1)) eqn:A;
     destruct (c_ge1 c2 * nmax1 (c_n c1) <? c_ge1 c1 * nmax1 (c_n c2)) eqn:B; cbn [fst snd];
     try apply Z.ltb_lt in A; try apply Z.ltb_lt in B; try apply Z.ltb_ge in A; try apply Z.ltb_ge in B; lia. }
   split; [|split; [|split]].
-  - rewrite <- F1. destruct (fold_r D c2 c1); reflexivity.
-  - unfold fold_r, mdiff_r. cbn [snd]. lia.
+  - rewrite <- F1. destruct (fold_f D c2 c1); reflexivity.
+  - unfold fold_f. cbn [snd]. exact (proj2 (mdiff_f_swap D c1 c2)).
   - exact Q.
   - intros G1 G2. unfold req, qdiff_r.
     set (d12 := Z.abs (c_ge1 c1 * nmax1 (c_n c2) - c_ge1 c2 * nmax1 (c_n c1))).
@@ -433,13 +516,194 @@ Proof. split; vm_compute; reflexivity. Qed.
 Lemma stats_pair_wf D S H lo hi T b cdfs s1 s2 x :
   stats_pair D S H lo hi T b cdfs s1 s2 = POk x -> pair_wf x.
 Proof.
-  intros Hx. destruct (stats_pair_inv _ _ _ _ _ _ _ _ _ _ _ Hx) as (l1 & l2 & gi & _ & _ & L12 & L1c & Egi & ->).
+  intros Hx. destruct (stats_pair_inv _ _ _ _ _ _ _ _ _ _ _ Hx) as (l1 & l2 & gi & _ & _ & L12 & Egi & ->).
   unfold pair_wf. cbn [pi_p pi_scores pi_mean1 pi_mean2].
   pose proof (opt_list_length _ _ Egi) as Lg. rewrite map_length, combine_length in Lg.
-  unfold welch_pvalues, welch_genes. rewrite !map_length, !combine_length, map_length, combine_length.
+  unfold welch_pvalues, welch_genes. rewrite !map_length, !combine_length.
   repeat split; lia.
 Qed.
 
 Lemma welch_p_empty_cluster : forall D c1 c2 H lo hi b c, 0 < H -> lo <= H <= hi ->
   c_n c1 <= 0 \/ c_n c2 <= 0 -> welch_p H lo hi b (welch_gene D c1 c2) c = 2 * H.
 Proof. intros D c1 c2 H lo hi b c HH Hc Hn. rewrite (welch_empty_cluster D c1 c2 Hn). exact (welch_p_empty H lo hi b c HH Hc). Qed.
+
+(* ------------------------------------------------------------------ *)
+(* COMPOSITION of the CDF half (BoringP: end points + monotonicity => a skipped gene has exact p >= p_th)
+   with the route theorem above (audit 3, defect A6): the per-gene premise of sdg_stats_sound_exact_welch is
+   DERIVED from premises about the oracle at the two end points +-boring_t and between them.
+   The statistic of a gene is t = ts * sqrt(ta/td) (tnu_sq; for the denom = 1.0e-10 branch t = (dn/dd)/1e-10)
+   at nu = nun/nud (tnu_nu).  x |-> sgn(x) x^2 is increasing, so t <= t' iff ts*ta/td <= ts'*ta'/td'. *)
+Definition tnu_sq (g : tnu) : option (Z * Z * Z) :=
+  match g with
+  | TN s a d _ _ => Some (s, a, d)
+  | TN_tiny dn dd _ _ => Some (Z.sgn dn, (dn * EPS_DEN) * (dn * EPS_DEN), (dd * EPS_NUM) * (dd * EPS_NUM))
+  | TN_nan => None
+  end.
+Definition tnu_nu (g : tnu) : option rat :=
+  match g with TN _ _ _ n m => Some (n, m) | TN_tiny _ _ n m => Some (n, m) | TN_nan => None end.
+Definition tnu_wfb (g : tnu) : bool :=
+  match tnu_sq g with Some (s, a, d) => (-1 <=? s) && (s <=? 1) && (0 <=? a) && (0 <? d) | None => false end.
+Definition t_le (g g' : tnu) : Prop :=
+  match tnu_sq g, tnu_sq g' with
+  | Some (s, a, d), Some (s', a', d') => s * a * d' <= s' * a' * d
+  | _, _ => False
+  end.
+(* the genes the skipping rule skips and the CDF is asked about: well formed, not NaN, |t| <= bn/bd *)
+Definition in_band (bn bd : Z) (g : tnu) : bool := tnu_wfb g && tnu_boring bn bd g.
+(* g, g' at the same nu, both inside [-boring_t, boring_t], t(g) <= t(g') *)
+Definition band_le (bn bd : Z) (g g' : tnu) : Prop :=
+  in_band bn bd g = true /\ in_band bn bd g' = true /\ tnu_nu g = tnu_nu g' /\ t_le g g'.
+(* the statistic t = s * bn/bd at the nu of g *)
+Definition end_pt (s bn bd : Z) (g : tnu) : tnu :=
+  match tnu_nu g with Some (n, m) => TN s (bn * bn) (bd * bd) n m | None => TN_nan end.
+
+Lemma tnu_boring_sq bn bd g s a d : 0 <= bn -> 0 < bd ->
+  tnu_sq g = Some (s, a, d) -> tnu_boring bn bd g = true -> a * (bd * bd) <= (bn * bn) * d.
+Proof.
+  intros Hbn Hbd Hs Hb. destruct g as [s0 a0 d0 n m|dn dd n m|]; cbn in Hs; inversion Hs; subst; clear Hs.
+  - cbn in Hb. apply Z.leb_le in Hb. exact Hb.
+  - cbn [tnu_boring] in Hb. apply Z.leb_le in Hb.
+    assert (P1 : 0 < EPS_DEN) by reflexivity. assert (P2 : 0 < EPS_NUM) by reflexivity.
+    generalize dependent EPS_DEN. generalize dependent EPS_NUM. intros E2 P2 E1 Hb P1.
+    assert (X0 : 0 <= Z.abs dn * E1 * bd) by (pose proof (Z.abs_nonneg dn); nia).
+    pose proof (Z.square_le_mono_nonneg _ _ X0 Hb) as Hsq.
+    replace (dn * E1 * (dn * E1) * (bd * bd)) with (Z.abs dn * E1 * bd * (Z.abs dn * E1 * bd)).
+    2:{ replace (Z.abs dn * E1 * bd * (Z.abs dn * E1 * bd)) with ((Z.abs dn * Z.abs dn) * (E1 * bd * (E1 * bd))) by ring.
+        rewrite <- Z.abs_mul, Z.abs_eq by nia. ring. }
+    replace (bn * bn * (dd * E2 * (dd * E2))) with (bn * (dd * E2) * (bn * (dd * E2))) by ring.
+    exact Hsq.
+Qed.
+
+Lemma in_band_inv bn bd g : in_band bn bd g = true ->
+  exists s a d n m, tnu_sq g = Some (s, a, d) /\ tnu_nu g = Some (n, m) /\ -1 <= s <= 1 /\ 0 <= a /\ 0 < d /\
+                    tnu_boring bn bd g = true.
+Proof.
+  unfold in_band, tnu_wfb. intros Hb. apply andb_true_iff in Hb. destruct Hb as [Hw Hb].
+  destruct (tnu_sq g) as [[[s a] d]|] eqn:Es; [|discriminate Hw].
+  apply andb_true_iff in Hw. destruct Hw as [Hw W4]. apply andb_true_iff in Hw. destruct Hw as [Hw W3].
+  apply andb_true_iff in Hw. destruct Hw as [W1 W2].
+  apply Z.leb_le in W1, W2, W3. apply Z.ltb_lt in W4.
+  destruct g as [s0 a0 d0 n m|dn dd n m|]; [exists s, a, d, n, m|exists s, a, d, n, m|discriminate Es];
+    repeat split; try assumption; try reflexivity.
+Qed.
+
+Section WelchBoring.
+  Variables H T bn bd : Z.
+  Variable t_cdf : tnu -> option Z.           (* scipy.stats.t.cdf(t, df=nu) as a function of the statistic *)
+  Hypothesis b_nonneg : 0 <= bn.
+  Hypothesis bd_pos : 0 < bd.
+  (* about the real boring_t and scipy's CDF at it (checked numerically by the harness for every nu that occurs) *)
+  Hypothesis end_lo : forall n m c, t_cdf (TN (-1) (bn * bn) (bd * bd) n m) = Some c -> T <= 2 * c.
+  Hypothesis end_hi : forall n m c, t_cdf (TN 1 (bn * bn) (bd * bd) n m) = Some c -> T <= 2 * (2 * H - c).
+  (* assumptions about scipy, on [-boring_t, boring_t] and at one nu only *)
+  Hypothesis t_mono : forall g g' c c', band_le bn bd g g' -> t_cdf g = Some c -> t_cdf g' = Some c' -> c <= c'.
+  Hypothesis t_nan : forall g g', band_le bn bd g g' \/ band_le bn bd g' g -> t_cdf g = None -> t_cdf g' = None.
+
+  Lemma end_pt_in_band s g n m : -1 <= s <= 1 -> tnu_nu g = Some (n, m) -> in_band bn bd (end_pt s bn bd g) = true.
+  Proof.
+    intros Hs En. unfold end_pt. rewrite En. unfold in_band, tnu_wfb. cbn [tnu_sq tnu_boring].
+    rewrite Z.leb_refl, andb_true_r.
+    repeat (apply andb_true_iff; split); try (apply Z.leb_le); try (apply Z.ltb_lt); nia.
+  Qed.
+
+  Lemma welch_skipped_ge : forall g c, in_band bn bd g = true -> gcdf t_cdf g = Some c ->
+    T <= 2 * c /\ T <= 2 * (2 * H - c).
+  Proof.
+    apply (skipped_ge_ord tnu H T (gcdf t_cdf) (in_band bn bd) (band_le bn bd)
+             (end_pt (-1) bn bd) (end_pt 1 bn bd)).
+    - (* between *)
+      intros g Hb. destruct (in_band_inv _ _ _ Hb) as (s & a & d & n & m & Es & En & Hs & Ha & Hd & Hbor).
+      pose proof (tnu_boring_sq bn bd g s a d b_nonneg bd_pos Es Hbor) as Hsq.
+      split.
+      + split; [apply (end_pt_in_band (-1) g n m); [lia | exact En]|]. split; [exact Hb|].
+        unfold end_pt. rewrite En. split; [reflexivity|]. unfold t_le. cbn [tnu_sq]. rewrite Es. nia.
+      + split; [exact Hb|]. split; [apply (end_pt_in_band 1 g n m); [lia | exact En]|].
+        unfold end_pt. rewrite En. split; [reflexivity|]. unfold t_le. cbn [tnu_sq]. rewrite Es. nia.
+    - intros g c. unfold end_pt. destruct (tnu_nu g) as [[n m]|]; cbn [gcdf]; [apply end_lo | discriminate].
+    - intros g c. unfold end_pt. destruct (tnu_nu g) as [[n m]|]; cbn [gcdf]; [apply end_hi | discriminate].
+    - intros a a' c c' Hle. assert (Na : gcdf t_cdf a = t_cdf a /\ gcdf t_cdf a' = t_cdf a').
+      { destruct Hle as (B1 & B2 & _ & _). destruct a, a'; try discriminate B1; try discriminate B2; split; reflexivity. }
+      destruct Na as [-> ->]. apply t_mono. exact Hle.
+    - intros a a' Hle. assert (Na : gcdf t_cdf a = t_cdf a /\ gcdf t_cdf a' = t_cdf a').
+      { destruct Hle as [(B1 & B2 & _ & _)|(B2 & B1 & _ & _)]; destruct a, a'; try discriminate B1; try discriminate B2; split; reflexivity. }
+      destruct Na as [-> ->]. apply t_nan. exact Hle.
+  Qed.
+End WelchBoring.
+
+(* the statistics computed from summary rows are well formed *)
+Lemma welch_gene_wf D c1 c2 : 0 < D -> welch_gene D c1 c2 = TN_nan \/ tnu_wfb (welch_gene D c1 c2) = true.
+Proof.
+  intros HD. unfold welch_gene.
+  destruct ((c_n c1 <? 1) || (c_n c2 <? 1)) eqn:En; [left; reflexivity|right].
+  cbv zeta.
+  set (A := fl (radd (fl (rdivz (var_f D c1) (c_n c1))) (fl (rdivz (var_f D c2) (c_n c2))))).
+  pose proof (fl_den_pos (radd (fl (rdivz (var_f D c1) (c_n c1))) (fl (rdivz (var_f D c2) (c_n c2))))) as PA.
+  fold A in PA.
+  assert (Pdd : 0 < snd (mdiff_f D c1 c2)) by (unfold mdiff_f; apply fl_den_pos).
+  set (dn := fst (mdiff_f D c1 c2)) in *. set (dd := snd (mdiff_f D c1 c2)) in *.
+  assert (Hsg : -1 <= Z.sgn dn <= 1) by (destruct dn; cbn; lia).
+  destruct (0 <? fst A) eqn:EA.
+  - apply Z.ltb_lt in EA. unfold tnu_wfb. cbn [tnu_sq].
+    repeat (apply andb_true_iff; split); try (apply Z.leb_le); try (apply Z.ltb_lt); nia.
+  - unfold tnu_wfb. cbn [tnu_sq].
+    assert (P2 : 0 < EPS_NUM) by reflexivity.
+    repeat (apply andb_true_iff; split); try (apply Z.leb_le); try (apply Z.ltb_lt); try lia; try nia.
+Qed.
+
+Theorem sdg_stats_sound_exact_welch_composed : forall st mask D H lo hi T bn bd t_cdf s1 s2 v up g,
+  0 < D -> 0 < H -> 0 <= lo <= H -> H <= hi <= 2 * H -> T <= 2 * H ->
+  - st_S st < q1_min (st_th st) -> q1_min (st_th st) < q1_th (st_th st) ->
+  0 <= bn -> 0 < bd ->
+  (forall n m c, t_cdf (TN (-1) (bn * bn) (bd * bd) n m) = Some c -> T <= 2 * c) ->
+  (forall n m c, t_cdf (TN 1 (bn * bn) (bd * bd) n m) = Some c -> T <= 2 * (2 * H - c)) ->
+  (forall g g' c c', band_le bn bd g g' -> t_cdf g = Some c -> t_cdf g' = Some c' -> c <= c') ->
+  (forall g g', band_le bn bd g g' \/ band_le bn bd g' g -> t_cdf g = None -> t_cdf g' = None) ->
+  sdg_stats st mask D H lo hi T (Some (bn, bd)) t_cdf s1 s2 = POk (v, up) -> nth_error v g = Some true ->
+  exists l1 l2, cstats_of s1 = POk l1 /\ cstats_of s2 = POk l2 /\
+    exists h, nth_error (correct_ttest (2 * H) 0 (welch_pvalues H lo hi None t_cdf (welch_genes D l1 l2))) g = Some h /\ h < T.
+Proof.
+  intros st mask D H lo hi T bn bd t_cdf s1 s2 v up g HD HH Hlo Hhi HT Hf Ho Hbn Hbd Elo Ehi Hmono Hnan Hs Hg.
+  apply (sdg_stats_sound_exact_welch st mask D H lo hi T (Some (bn, bd)) t_cdf s1 s2 v up g HD HH Hlo Hhi HT Hf Ho); [|exact Hs|exact Hg].
+  intros l1 l2 gc c _ _ Hin Hb Hc. cbn [gbrg] in Hb.
+  apply (welch_skipped_ge H T bn bd t_cdf Hbn Hbd Elo Ehi Hmono Hnan gc c); [|exact Hc].
+  unfold in_band. rewrite Hb, andb_true_r.
+  unfold welch_genes in Hin. apply in_map_iff in Hin. destruct Hin as ([c1 c2] & <- & _). cbn [fst snd] in *.
+  destruct (welch_gene_wf D c1 c2 HD) as [E|E]; [|exact E].
+  rewrite E in Hc. discriminate Hc.
+Qed.
+
+(* ------------------------------------------------------------------ *)
+(* a gene whose float variance is exactly 0.0 in both clusters is NOT RECORDED, whatever its means, when the
+   oracle is NaN at nu = 0 (scipy: t.cdf(x, df=0) = nan - an assumption about scipy, observed by the harness) *)
+Definition nan_at_nu_zero (t_cdf : tnu -> option Z) : Prop :=
+  forall g n m, tnu_nu g = Some (n, m) -> n = 0 -> t_cdf g = None.
+
+Lemma nth_error_map_some {A B} (f : A -> B) l g a : nth_error l g = Some a -> nth_error (map f l) g = Some (f a).
+Proof. intros E. rewrite nth_error_map, E. reflexivity. Qed.
+
+Theorem constant_gene_not_recorded : forall st mask D H lo hi T b t_cdf s1 s2 v up g l1 l2 c1 c2,
+  0 < D -> 0 < H -> 0 <= lo <= H -> H <= hi <= 2 * H -> T <= 2 * H ->
+  - st_S st < q1_min (st_th st) -> q1_min (st_th st) < q1_th (st_th st) ->
+  nan_at_nu_zero t_cdf ->
+  sdg_stats st mask D H lo hi T b t_cdf s1 s2 = POk (v, up) ->
+  cstats_of s1 = POk l1 -> cstats_of s2 = POk l2 -> nth_error l1 g = Some c1 -> nth_error l2 g = Some c2 ->
+  1 <= c_n c1 -> 1 <= c_n c2 -> fst (var_f D c1) = 0 -> fst (var_f D c2) = 0 ->
+  (exists nud, welch_gene D c1 c2 = TN_tiny (fst (mdiff_f D c1 c2)) (snd (mdiff_f D c1 c2)) 0 nud) /\
+  nth_error (welch_pvalues H lo hi b t_cdf (welch_genes D l1 l2)) g = Some (2 * H) /\
+  nth_error v g <> Some true.
+Proof.
+  intros st mask D H lo hi T b t_cdf s1 s2 v up g l1 l2 c1 c2 HD HH Hlo Hhi HT Hf Ho Hnan Hs E1 E2 Hc1 Hc2 N1 N2 V1 V2.
+  destruct (welch_zero_variance D c1 c2 N1 N2 V1 V2) as (nud & Eg).
+  assert (Hp : nth_error (welch_pvalues H lo hi b t_cdf (welch_genes D l1 l2)) g = Some (2 * H)).
+  { unfold welch_pvalues, welch_genes. rewrite !nth_error_map, nth_error_combine, Hc1, Hc2. cbn [option_map fst snd].
+    rewrite Eg. rewrite (Hnan (TN_tiny (fst (mdiff_f D c1 c2)) (snd (mdiff_f D c1 c2)) 0 nud) 0 nud eq_refl eq_refl). f_equal. apply welch_p_nan; lia. }
+  split; [exists nud; exact Eg|]. split; [exact Hp|].
+  intros Hg.
+  destruct (sdg_stats_sound st mask D H lo hi T b t_cdf s1 s2 v up g HD Hf Ho Hs Hg)
+    as (_ & _ & l1' & l2' & c1' & c2' & E1' & E2' & _ & _ & (a & Ha & HaT) & _ & _).
+  rewrite E1 in E1'. rewrite E2 in E2'. inversion E1'; inversion E2'; subst l1' l2'.
+  destruct (restricted_holm_equiv (2 * H) T _ (welch_pvalues_range H lo hi b t_cdf (welch_genes D l1 l2) HH ltac:(lia) ltac:(lia) ltac:(lia)) HT)
+    as (_ & _ & Hat).
+  destruct (Hat g (2 * H) Hp) as (_ & Hk & _). destruct (Hk HT) as (Hkeep & _).
+  rewrite Hkeep in Ha. assert (Ea : a = 2 * H) by congruence. lia.
+Qed.
